@@ -95,7 +95,7 @@ func TestVerifC11(t *testing.T) {
 			"with session ids valid/unknown/stale and users none/alice/bob (bearer middleware), idle timeout T in {1 s, 60 s}; 1/8 of the cases on a stateless endpoint. non-trivial: >=1 session terminated (DELETE, timeout or server Close) and afterwards addressed again, or >=1 foreign-user request. " +
 			"distinct = distinct operation sequences (kind, target class, user relation, delay)",
 		MinNontrivial: 100,
-		Assumptions: []string{"the idle deadline is decided at +-1 ms, not at the exact instant", "a 409 on a resumed/duplicate standalone GET is not part of this property (GETs are cut before the next operation)"},
+		Assumptions:   []string{"the idle deadline is decided at +-1 ms, not at the exact instant", "a 409 on a resumed/duplicate standalone GET is not part of this property (GETs are cut before the next operation)"},
 	}
 	vh.Run(t, cfg, func(c *vh.Case) {
 		spec := genC11(c.R)
